@@ -8,9 +8,12 @@
 (* precision; percentage: equal value, stable text).                       *)
 (* All rejected events are recorded, with the kind of divergence.          *)
 (***************************************************************************)
-EXTENDS NumCodec, TLC, Json, IOUtils
+EXTENDS NumCodec, Regex, TLC, Json, IOUtils
 
 Trace == ndJsonDeserialize(IOEnv.TRACE)
+\* the patterns PUBLISHED in data/schemas/num/amount.json and percentage.json, as syntax trees
+Published == JsonDeserialize(IOEnv.PATTERNS)
+PublishedMember(ev) == ReMatches(IF ev.ty = "amount" THEN Published.amount ELSE Published.percentage, ev.in)
 VARIABLES i, bad, members, near
 vars == <<i, bad, members, near>>
 Init == i = 1 /\ bad = <<>> /\ members = 0 /\ near = 0
@@ -40,7 +43,9 @@ ShouldAccept(ev) ==
 
 \* "ok" | kind of divergence
 ReadVerdict(ev) ==
-    IF ShouldAccept(ev)
+    \* the published pattern is the one the specification states (checked on the plain string reader's inputs)
+    IF ev.rd = "string" /\ Published.ok /\ PublishedMember(ev) # Matches(ev.in, ev.ty) THEN "published-pattern-differs"
+    ELSE IF ShouldAccept(ev)
     THEN IF ~ev.ok THEN "rejects-member"
          ELSE IF A(ev.v, ev.e) = ValueOf(Text(ev), ev.ty) THEN "ok" ELSE "wrong-value"
     ELSE IF ev.ok THEN "accepts-nonmember" ELSE "ok"
